@@ -839,6 +839,24 @@ func (e *pathEngine) run(f *ssa.Function, st0 *PState) []*PState {
 }
 
 func (e *pathEngine) branch(x *ssa.If, b *ssa.BasicBlock, st *PState, work *[]workItem) {
+	// `v == nil` / `v != nil` where v is the result of `v, ok := x.(I)` for an interface type I, tested in a block that
+	// the ok-edge of a branch on that ok dominates: v is not nil there (a redundant defensive check), one edge only
+	if bo, isB := x.Cond.(*ssa.BinOp); isB && (bo.Op == token.EQL || bo.Op == token.NEQ) {
+		var other ssa.Value
+		if isNilConst(bo.Y) {
+			other = bo.X
+		} else if isNilConst(bo.X) {
+			other = bo.Y
+		}
+		if other != nil && assertedNonNil(other, b) {
+			idx := 0
+			if bo.Op == token.EQL {
+				idx = 1
+			}
+			*work = append(*work, workItem{b: b.Succs[idx], pred: b, st: st})
+			return
+		}
+	}
 	k, onTrue, ok := e.cond(st, x.Cond)
 	cur := Unknown
 	if ok {
@@ -1188,4 +1206,46 @@ func callErrIdx(c *ssa.CallCommon) int {
 		}
 	}
 	return -1
+}
+
+// assertedNonNil: v is result #0 of a comma-ok type assertion to an interface type, and block b is dominated by the
+// ok-successor of a branch on result #1 (an assertion to an interface type succeeds only for a non-nil dynamic value).
+func assertedNonNil(v ssa.Value, b *ssa.BasicBlock) bool {
+	ex, ok := v.(*ssa.Extract)
+	if !ok || ex.Index != 0 {
+		return false
+	}
+	ta, ok := ex.Tuple.(*ssa.TypeAssert)
+	if !ok || !ta.CommaOk || !types.IsInterface(ta.AssertedType) {
+		return false
+	}
+	for _, ref := range *ta.Referrers() {
+		okEx, isEx := ref.(*ssa.Extract)
+		if !isEx || okEx.Index != 1 {
+			continue
+		}
+		for _, r2 := range *okEx.Referrers() {
+			var cond ssa.Value = okEx
+			okSucc := 0
+			if u, isU := r2.(*ssa.UnOp); isU && u.Op == token.NOT {
+				cond, okSucc = u, 1
+				for _, r3 := range *u.Referrers() {
+					if iff, isIf := r3.(*ssa.If); isIf && iff.Cond == cond {
+						s := iff.Block().Succs[okSucc]
+						if len(s.Preds) == 1 && s.Parent() == b.Parent() && s.Dominates(b) {
+							return true
+						}
+					}
+				}
+				continue
+			}
+			if iff, isIf := r2.(*ssa.If); isIf && iff.Cond == cond {
+				s := iff.Block().Succs[okSucc]
+				if len(s.Preds) == 1 && s.Parent() == b.Parent() && s.Dominates(b) {
+					return true
+				}
+			}
+		}
+	}
+	return false
 }
